@@ -30,13 +30,16 @@ namespace xtl
         std::string output;
         int val = 0;
         int valb = -8;
-        for (char c : input)
+        for (char sc : input)
         {
-            if (T[std::size_t(c)] == -1)
+            // index the table with the unsigned value of the character: plain char may be
+            // signed, and std::size_t(char(0x80)) would be far outside the 256 entries
+            const std::size_t c = static_cast<unsigned char>(sc);
+            if (T[c] == -1)
             {
                 break;
             }
-            val = (val << 6) + T[std::size_t(c)];
+            val = (val << 6) + T[c];
             valb += 6;
             if (valb >= 0)
             {
